@@ -208,6 +208,14 @@ def run(F, R):
                 only = regions[i_] - set().union(*[regions[j] for j in range(len(succs)) if j != i_])
                 evs = [SS.ev[y] for y in only if SS.ev[y]]
                 bad = [e for e in evs if not (e[0] == "env" and e[1] == "Storage")]
+                # writes to the machine's own state (self.context...) must not depend on a storage result either
+                for y in only:
+                    ny = SS.nodes[y]
+                    pls = [s_["p"] for s_ in ny.block["s"] if s_["k"] == "assign"] + ([ny.term["dest"]] if ny.term["k"] == "call" else [])
+                    for pl in pls:
+                        ch = smod._chain(pl)
+                        if "context" in ch:
+                            bad.append(("write", ".".join(ch), ny.loc()))
                 R.check("C14-R2", "control-dependence:%s#%d" % (nd.ctx.bv.name.split("::")[-2], i_), not bad, "only storage operations depend on this storage result",
                         "non-storage effects are control-dependent on a storage result: %s" % bad[:4], nd.loc())
             # the function's return value must not depend on it either (same provenance on all paths)
